@@ -44,6 +44,12 @@ def gen_movies(rng, tier):
         if follow:
             frags.append([{"track_id": 1, "base": base, "tfhd_dur": 25, "tfdt": t, "tfdt_v": 0, "durations": None, "sizes": [4, 1], "cts": None, "k0": k0}])
         movies.append(([{"id": 1, "kind": "avc", "ts": 1000}], frags, 50))
+    # a track fragment WITHOUT a track run in front of / between fragments that have one
+    for base, pos in itertools.product(bases, (0, 1)):
+        full = [{"track_id": 1, "base": base, "tfhd_dur": 25, "tfdt": 700 + 50 * j, "tfdt_v": 0, "durations": None, "sizes": [3 + j, 1], "cts": None, "k0": 1 + 2 * j} for j in range(2)]
+        empty = {"track_id": 1, "base": base, "tfhd_dur": None, "tfdt": 650, "tfdt_v": 0, "durations": None, "sizes": [], "cts": None, "trun": False}
+        seq = [[empty], [full[0]], [full[1]]] if pos == 0 else [[full[0]], [empty], [full[1]]]
+        movies.append(([{"id": 1, "kind": "avc", "ts": 1000}], seq, 50))
     n_rand = 150 if tier == "quick" else 3000
     for _ in range(n_rand):
         ntr = rng.choice([1, 2, 2])
@@ -64,7 +70,11 @@ def gen_movies(rng, tier):
                 tf = {"track_id": t["id"], "base": rng.choice(bases), "tfhd_dur": rng.choice([None, None, 20, 1001]), "tfdt": clock[t["id"]],
                       "tfdt_v": 1 if clock[t["id"]] >= (1 << 32) else rng.choice([0, 1]), "durations": [rng.choice([0, 1, 33, 4000]) for _ in range(n)] if per else None,
                       "sizes": [rng.choice([0, 1, 2, 9, 60]) for _ in range(n)], "cts": [rng.choice([0, 7, -7, 2 ** 31 - 1, -2 ** 31]) for _ in range(n)] if rng.random() < 0.5 else None,
-                      "with_offset": True, "trun": True, "k0": cnt[t["id"]], "moof_flag": rng.random() < 0.4}
+                      "with_offset": True, "trun": rng.random() < 0.85, "k0": cnt[t["id"]], "moof_flag": rng.random() < 0.4}
+                if not tf["trun"]:
+                    # a track fragment without a track run (e.g. tfhd duration-is-empty): contributes no samples
+                    n, per = 0, False
+                    tf.update({"sizes": [], "durations": None, "cts": None})
                 d = sum(tf["durations"]) if per else n * (tf["tfhd_dur"] if tf["tfhd_dur"] is not None else dflt)
                 clock[t["id"]] += d
                 cnt[t["id"]] += n
@@ -87,7 +97,7 @@ def check(rep):
     cases, meta = [], []
     for mi, (tracks, frags, dflt) in enumerate(movies):
         extra = [isogen.Box("free", [isogen.Raw(b"pad")])] if mi % 5 == 0 else []
-        init, fin = isogen.build_fragmented(tracks, frags, trex_dur=dflt, extra_between=extra)
+        init, fin = isogen.build_fragmented(tracks, frags, trex_dur=dflt, extra_between=extra, large_moof=(mi % 4 == 1))
         media1, runs1 = fin(len(init))
         cases.append({"data": init + media1})
         meta.append((mi, "single", init + media1, runs1, dflt, tracks))
@@ -108,14 +118,25 @@ def check(rep):
                     continue
                 n = sum(r["sample_count"] for r in rs)
                 lines.append(isogen.fraglookup_line(rs, dflt, list(range(0, n + 3)), mode, data.hex()))
-                lmeta.append((ci, t["id"], n))
+                lmeta.append((ci, t["id"], n, "all"))
+                if any(not r["has_trun"] for r in rs):
+                    # a track fragment without a track run defines no samples: the SPECIFICATION is evaluated on the fragments that have a run
+                    # (Spec/Fragment.v is stated for those), the lookup MODEL on all of them (it mirrors the code's indexing by fragment)
+                    lines.append(isogen.fraglookup_line([r for r in rs if r["has_trun"]], dflt, [], mode, data.hex()))
+                    lmeta.append((ci, t["id"], n, "with_run"))
         spec_raw = common.model_run(lines)
         specs = {}
-        for (ci, tid, n), raw in zip(lmeta, spec_raw):
+        for (ci, tid, n, which), raw in zip(lmeta, spec_raw):
             try:
-                specs[(ci, tid)] = (json.loads(raw), n)
+                j = json.loads(raw)
             except Exception:
                 ties.append(("spec_%d" % len(ties), {"kind": "correspondence", "what": "specification driver failed", "raw": raw[:200]}))
+                continue
+            if which == "all":
+                specs[(ci, tid)] = (j, n)
+            elif (ci, tid) in specs:
+                specs[(ci, tid)][0]["consistent"] = j.get("consistent")
+                specs[(ci, tid)][0]["expand"] = j.get("expand")
         for ci, ((mi, kind, data, runs, dflt, tracks), (impl, model)) in enumerate(zip(meta, res)):
             if "dead" in impl:
                 fails.append(("dead_%d" % len(fails), {"kind": "input", "what": "worker died", "case": "movie %d %s" % (mi, kind)}))
@@ -189,7 +210,7 @@ def check(rep):
     rep.coverage.update({"evaluations": 2 * len(cases), "distinct_nontrivial": len(distinct),
                          "rule": "shape-exhaustive one-track movies: base {moof start, explicit base-data-offset, explicit base with negative data offsets} x default-base-is-moof flag set/clear (ignored when an explicit base is present) x tfhd default duration "
                                  "present/absent x per-sample durations present/absent x composition offsets present/absent x tfdt version 0/1 x 1-2 fragments; 2-3 track fragments of one track inside one movie fragment x base mode x following fragment; plus seeded random movies "
-                                 "(1-2 tracks, 1-3 fragments, repeated tracks inside a fragment, 0-5 samples per run, empty runs, 64-bit decode times, free boxes between fragments); each as one stream and as "
+                                 "(1-2 tracks, 1-3 fragments, repeated tracks inside a fragment, track fragments without a run, 64-bit moof headers, 0-5 samples per run, empty runs, 64-bit decode times, free boxes between fragments); each as one stream and as "
                                  "init segment + media segment (read_fragment_header); debug and release; non-trivial = distinct run lists with at least one sample",
                          "input_distribution": stats})
     rep.coverage["samples"] = [{"runs": meta[0][3]}, {"runs": meta[len(meta) // 2][3]}]
